@@ -60,10 +60,12 @@ type file struct {
 	Pieces []piece
 }
 
-func (f *file) add(role string, b string) { f.Pieces = append(f.Pieces, piece{B: []byte(b), Role: role}) }
-func (f *file) ws(b string)               { f.add("ws", b) }
-func (f *file) kw(b string)               { f.add("kw", b) }
-func (f *file) raw(b []byte)              { f.Pieces = append(f.Pieces, piece{B: b, Role: "raw"}) }
+func (f *file) add(role string, b string) {
+	f.Pieces = append(f.Pieces, piece{B: []byte(b), Role: role})
+}
+func (f *file) ws(b string)  { f.add("ws", b) }
+func (f *file) kw(b string)  { f.add("kw", b) }
+func (f *file) raw(b []byte) { f.Pieces = append(f.Pieces, piece{B: b, Role: "raw"}) }
 func (f *file) intASCII(role string, v, ref int64) {
 	f.Pieces = append(f.Pieces, piece{B: []byte(strconv.FormatInt(v, 10)), Role: role, Val: v, Ref: ref})
 }
